@@ -335,7 +335,7 @@ PROTOS = {
 
 def scenarios(tier="quick"):
     out = []
-    MAXS = {"int11+double": (3, 9) if tier == "quick" else (6, 17), "int1+single+const": (1, 5, 0) if tier == "quick" else (2, 9, 1), "scaled33": 6, "int64": 9, "int2 at the top of i64": (1, 1)}
+    MAXS = {"int11+double": (3, 9) if tier == "quick" else (4, 9), "int1+single+const": (1, 5, 0), "scaled33": 6 if tier == "quick" else 9, "int64": 9, "int2 at the top of i64": (1, 1)}
     for key, proto in PROTOS.items():
         if tier == "quick" and key in ("int64",):
             continue
